@@ -57,21 +57,6 @@ def analyse(m, fname, key, rw, level, line_size):
                         return REFUTED, "locality operand is %s" % loc.get("v"), rule, {"expected_locality": 3 - level}
                     if ct.get("v") != 1:
                         return REFUTED, "cache type operand is %s (instruction cache)" % ct.get("v"), rule, None
-                    # address must be derived from argument 0 by GEP/bitcast only
-                    a = ops[0]
-                    depth = 0
-                    while a["k"] == "i" and depth < 20:
-                        d = insts[a["id"]]
-                        if d["op"] in ("getelementptr", "bitcast"):
-                            a = d["ops"][0]
-                        elif d["op"] == "phi":
-                            # pointer induction variable: every incoming value must derive from arg 0
-                            a = d["inc"][0][0]
-                        else:
-                            return UNDECIDED, "prefetch address computed by %s" % d["op"], rule, None
-                        depth += 1
-                    if not (a["k"] == "a" and a["n"] == 0):
-                        return REFUTED, "prefetch address is not derived from the pointer argument", rule, None
                     continue
                 if cal and (cal.startswith("llvm.dbg") or cal.startswith("llvm.lifetime") or cal == "llvm.assume"):
                     continue
@@ -82,27 +67,141 @@ def analyse(m, fname, key, rw, level, line_size):
                     "note": "memory is accessed: an inaccessible pointer faults / memory may change"}
             if op not in PURE_OPS:
                 return UNDECIDED, "instruction %s" % op, rule, None
-    # stride: every add feeding a phi must add a positive constant equal to the cache line size
-    strides = []
-    for i in insts.values():
-        if i["op"] == "phi":
-            for v, blk in i["inc"]:
-                if v["k"] == "i":
-                    d = insts[v["id"]]
-                    if d["op"] == "add":
-                        cs = [o for o in d["ops"] if o["k"] == "ci"]
-                        if cs:
-                            strides.append(cs[0]["v"])
-                    elif d["op"] == "getelementptr":
-                        strides.append(d.get("coff"))
-    for s_ in strides:
-        if not s_ or s_ <= 0 or s_ >= (1 << 63):
-            return REFUTED, "loop stride %s is not a positive constant: the loop need not terminate" % s_, rule, None
-    if key["type"] != "void-default-n" and not strides and npf:
-        return UNDECIDED, "no induction stride found", rule, None
+    # termination: every loop must have an induction variable iv = init + k*s (s a positive constant) and an unsigned
+    # exit test against a loop-invariant bound that some iv value fails before the counter wraps
+    tv, td, tw = termination(m, fname, f, insts, key)
+    if tv != HOLDS:
+        return tv, td, rule, tw
+    strides = [td]
     if npf == 0:
         return HOLDS, "no prefetch and no memory access at all (hint compiled out)", rule, None
-    return HOLDS, "%d llvm.prefetch call(s), stride %s, no load/store/call" % (npf, sorted(set(strides))), rule, None
+    return HOLDS, "%d llvm.prefetch call(s), stride %s with a provably exceeded bound, no load/store/call" % (npf, strides), rule, None
+
+
+N_BITS = 44      # byte counts up to 16 TiB: far beyond "several pages", small enough that i += 64 cannot wrap
+
+
+def termination(m, fname, f, insts, key):
+    """HOLDS/REFUTED/UNDECIDED, detail, witness"""
+    import irterm
+    import isa
+    import term as T
+    blocks = f["blocks"]
+    phis = [i for b in blocks for i in b["insts"] if i["op"] == "phi"]
+    loops = []
+    for p in phis:
+        for v, blk in p["inc"]:
+            if v["k"] == "i":
+                d = insts[v["id"]]
+                if d["op"] == "add" and any(o.get("k") == "i" and o["id"] == p["id"] for o in d["ops"]):
+                    cs = [o for o in d["ops"] if o["k"] == "ci"]
+                    if cs:
+                        loops.append((p, d, cs[0]["v"], cs[0]["bits"]))
+                elif d["op"] == "getelementptr" and d["ops"][0].get("k") == "i" and d["ops"][0]["id"] == p["id"] and not d["terms"]:
+                    loops.append((p, d, d["coff"] & ((1 << 64) - 1), 64))
+    has_back = any(p for p in phis)
+    if not phis:
+        return HOLDS, "no loop", None
+    if not loops:
+        return UNDECIDED, "loop without a constant-stride induction variable", None
+    # terms of the loop-invariant values: n is a byte/element count of at most N_BITS bits (stated assumption)
+    I = irterm.Interp(m, isa.TABLE)
+    nargs = len(f["args"])
+    argterms = [None] * nargs
+    if nargs > 1:
+        argterms[1] = T.zext(T.arg(1, 0, N_BITS), 64)
+    I.summarise(fname, argterms)
+    vals = I._vals
+    blk_of = {}
+    for b in blocks:
+        for i_ in b["insts"]:
+            blk_of[i_["id"]] = b["id"]
+    ivs = {}
+    for p, nxt, s_, w in loops:
+        ivs[p["id"]] = (p, nxt, s_, w)
+        ivs[nxt["id"]] = (p, nxt, s_, w)
+    # exit tests: conditional branches whose condition compares an induction value with an invariant
+    tests = []
+    for b in blocks:
+        t = b["insts"][-1]
+        if t["op"] == "br" and len([o for o in t["ops"] if o["k"] == "b"]) == 2 and t["ops"][0]["k"] == "i":
+            c = insts[t["ops"][0]["id"]]
+            if c["op"] == "icmp":
+                x, y = c["ops"]
+                bl = [o["id"] for o in t["ops"] if o["k"] == "b"]      # [false_dest, true_dest]
+                for iv, other, sw in ((x, y, False), (y, x, True)):
+                    if iv.get("k") == "i" and iv["id"] in ivs:
+                        hdr = blk_of[ivs[iv["id"]][0]["id"]]
+                        if bl[1] == hdr:
+                            inv = False
+                        elif bl[0] == hdr:
+                            inv = True
+                        else:
+                            continue
+                        tests.append((c, iv, other, sw, inv))
+    if not tests:
+        return UNDECIDED, "no exit test on the induction variable", None
+    SWAP = {"ult": "ugt", "ugt": "ult", "ule": "uge", "uge": "ule", "eq": "eq", "ne": "ne"}
+    best = None
+    INV = {"ult": "uge", "uge": "ult", "ugt": "ule", "ule": "ugt", "eq": "ne", "ne": "eq"}
+    for c, iv, other, sw, inv in tests:
+        pred = c["pred"]
+        if pred not in SWAP:
+            return UNDECIDED, "signed exit test %s" % pred, None
+        if sw:
+            pred = SWAP[pred]
+        if inv:
+            pred = INV[pred]        # the loop continues while the branch condition is false
+        p, nxt, s_, w = ivs[iv["id"]]
+        if s_ == 0 or s_ >= (1 << (w - 1)):
+            return REFUTED, "loop stride %d is not a positive constant: the loop need not terminate" % s_, {"stride": s_}
+        init = None
+        for v, blk in p["inc"]:
+            if not (v["k"] == "i" and v["id"] == nxt["id"]):
+                init = I.val(v) if v["k"] != "i" else vals.get(v["id"])
+        bound = I.val(other) if other["k"] != "i" else vals.get(other["id"])
+        if init is None or bound is None:
+            return UNDECIDED, "induction start / bound not loop invariant", None
+        off = s_ if iv["id"] == nxt["id"] else 0       # the test looks at iv (+ s if it tests the incremented value)
+        M = 1 << w
+        # the loop continues while  (iv + off) pred bound ; pred in ult/ule (counting up) or ne
+        if pred in ("ult", "ule"):
+            # proof: bound's maximum is below the largest reachable counter value
+            ub = T.ubound(bound) if bound[0] != "arg" else None
+            if bound[0] == "const":
+                ub = bound[2]
+            if ub is not None and ub < M - s_ - off:
+                best = (s_, "iv %s bound, bound <= %d < 2^%d - stride" % (pred, ub, w))
+                continue
+            # refutation: a documented input for which no reachable counter value fails the test
+            for ptr in (0, 1, 63, 64, 4095, 4096, 1 << 47, M - 64, M - 1):
+                for n in (0, 1, 63, 64, 65, 4096, 12293, 1 << 20):
+                    args = [ptr, n][:nargs]
+                    try:
+                        i0 = T.ev(init, {"args": args})
+                        bd = T.ev(bound, {"args": args})
+                    except T.Uneval:
+                        continue
+                    vmax = M - s_ + (i0 % s_)          # largest value congruent to init modulo the stride
+                    top = (vmax + off) % M
+                    fails_somewhere = False
+                    # values taken by iv+off are all residues (i0+off) mod s; the largest one is what can exceed bound
+                    largest = M - s_ + ((i0 + off) % s_)
+                    if pred == "ult":
+                        fails_somewhere = largest >= bd
+                    else:
+                        fails_somewhere = largest > bd
+                    if not fails_somewhere:
+                        return REFUTED, ("the loop `while (iv %s bound)` with stride %d never exits: for this input the bound is %#x, "
+                                         "no counter value exceeds it before wrapping" % (pred, s_, bd)), {
+                                             "ptr": hex(ptr), "n": n, "bound": hex(bd), "stride": s_}
+            return UNDECIDED, "cannot bound the loop limit %s" % T.show(bound, 3, ["ptr", "n"]), None
+        if pred == "ne":
+            return UNDECIDED, "exit test iv != bound (termination needs a divisibility argument)", None
+        return UNDECIDED, "exit test %s" % pred, None
+    if best:
+        return HOLDS, best[0], None
+    return UNDECIDED, "no usable exit test", None
 
 
 def run(tier, a=None):
@@ -134,6 +233,8 @@ def run(tier, a=None):
             v, d, r, w = analyse(m, name, key, rw, lv, 64)
             res.add(k, v, d, r, w)
     res.extra["configurations"] = [c.name for c in cfgs]
+    res.assumptions = ["byte / element counts are below 2^%d (the statement speaks of counts up to several pages); with that the "
+                       "counter of the prefetch loop cannot wrap" % N_BITS]
     res.trusted = ["LLVM LangRef: llvm.prefetch has no effect on program behaviour", "SDM: PREFETCHh never faults",
                    "GCC takes the same source branch (checked by C19 branch-selection equality)"]
     c = res.counts()
